@@ -141,6 +141,19 @@ def run_tlc(module, cfg, **kw):
         return run_tlc_once(module, cfg, **kw)
 
 
+def _tlc_classpath():
+    default = "/opt/veriftools/tla/tla2tools.jar:/opt/veriftools/tla/CommunityModules-deps.jar"
+    w = shutil.which("tlc")
+    if w:
+        try:
+            m = re.search(r"-cp\s+(\S+)", open(w).read())
+            if m:
+                return m.group(1)
+        except OSError:
+            pass
+    return default
+
+
 def run_tlc_once(module, cfg, *, workers=None, simulate=None, depth=None, timeout=600,
                  extra_files=(), defines=None, allow_violation=False, coverage=False,
                  dfs=False, java_opts=None, keep=False, name=None):
@@ -164,7 +177,10 @@ def run_tlc_once(module, cfg, *, workers=None, simulate=None, depth=None, timeou
         for k, v in defines.items():
             cfgtext = cfgtext.replace("@" + k + "@", str(v))
         open(os.path.join(d, cfg), "w").write(cfgtext)
-    cmd = ["tlc", "-metadir", os.path.join(d, "md"), "-config", cfg]
+    # java is called directly (same jar and class path as the `tlc` wrapper) so that -Xss is on the command line:
+    # the launcher sizes the main thread, which computes the initial states, before JAVA_TOOL_OPTIONS is read
+    cmd = ["java", "-Xss256m", "-XX:+UseParallelGC", "-cp", _tlc_classpath(), "tlc2.TLC",
+           "-metadir", os.path.join(d, "md"), "-config", cfg]
     if simulate:
         cmd += ["-simulate", "num=%d" % simulate, "-seed", str(seed())]
         if depth:
